@@ -82,6 +82,7 @@ def render(sc, tmp):
             lines += ["host = 127.0.0.1", "port = 0"]
         lines.append("")
     expect = {}
+    env_groups = {}
     for w in sc["watchers"]:
         name = w["name"]
         wd = os.path.join(tmp, 'wd-' + name)
@@ -117,14 +118,19 @@ def render(sc, tmp):
             lines.append("copy_env = True")
         lines.append("")
         if w.get("env"):
-            lines.append("[env:%s]" % name)
-            for kk, vv in sorted(w["env"].items()):
-                lines.append("%s = %s" % (kk, vv))
-            lines.append("")
+            # watchers with the same variables share one section whose
+            # header lists them (blanks after the commas)
+            env_groups.setdefault(json.dumps(w["env"], sort_keys=True),
+                                  []).append(name)
         expect[name] = {"argv": exp_args, "cwd": wd,
                         "env": dict(w.get("env") or {}),
                         "copy_env": bool(w.get("copy_env")),
                         "use_sockets": bool(w.get("use_sockets"))}
+    for key in sorted(env_groups):
+        lines.append("[env:%s]" % ', '.join(env_groups[key]))
+        for kk, vv in sorted(json.loads(key).items()):
+            lines.append("%s = %s" % (kk, vv))
+        lines.append("")
     ini = os.path.join(tmp, 'circus.ini')
     with open(ini, 'w') as f:
         f.write("\n".join(lines))
@@ -477,6 +483,10 @@ def strategy(always_restart=False):
                 w["socket_refs"] = sorted(set(draw(st.lists(
                     st.integers(0, len(socks) - 1), min_size=1,
                     max_size=2))))
+            if ws and ws[0].get("env") and draw(st.integers(0, 2)) == 0:
+                w["env"] = dict(ws[0]["env"])     # one shared [env:a, b]
+            if socks and w.get("use_sockets"):
+                pass
             elif draw(st.booleans()):
                 # "without use_sockets", said explicitly
                 w["explicit_false"] = draw(st.sampled_from(
